@@ -105,30 +105,91 @@ def _field_of(e: ast.AST, who: str) -> Optional[str]:
     return None
 
 
-def eq_fields(fi) -> Optional[List[str]]:
+def eq_fields(fi, ctx=None, P=None):
+    """Fields whose equality decides __eq__, however it is spelled (one conjunction, early returns, tuple comparison),
+    path by path.  A leading type guard that lets every plugin reference through (isinstance(other, <PluginRef or an
+    ancestor>) -> NotImplemented / False otherwise) does not restrict equality; a guard on type(self) does.
+    Returns (fields | None, problem | None)."""
     other = fi.params[1]
-    rets = [x.value for x in walk_local(fi.node) if isinstance(x, ast.Return)]
-    if len(rets) != 1:
-        return None
-    r = rets[0]
-    parts = r.values if isinstance(r, ast.BoolOp) and isinstance(r.op, ast.And) else [r]
-    out = []
-    for p in parts:
-        if isinstance(p, ast.Compare) and len(p.ops) == 1 and isinstance(p.ops[0], ast.Eq):
-            if isinstance(p.left, ast.Tuple) and isinstance(p.comparators[0], ast.Tuple):
-                ls = [_field_of(e, "self") for e in p.left.elts]
-                rs = [_field_of(e, other) for e in p.comparators[0].elts]
-                if None in ls or ls != rs:
+    if ctx is None:
+        return None, "no context"
+    f = F(ctx, fi)
+    try:
+        paths = f.value_paths()
+    except ValueError as e:
+        return None, f"unrecognised control flow ({e})"
+    anc = {"PluginRef", "MetadataSchema", "BaseModel", "object"}
+    if P is not None:
+        try:
+            anc |= {q.rsplit(".", 1)[-1] for q in P.mro(PR)}
+        except Exception:
+            pass
+
+    def field_eqs(e):
+        """[(field)] for a conjunction of self.f == other.f / tuple comparison, None if something else"""
+        out = []
+        for p_ in MM.conjuncts(e):
+            if isinstance(p_, ast.Compare) and len(p_.ops) == 1 and isinstance(p_.ops[0], ast.Eq):
+                if isinstance(p_.left, ast.Tuple) and isinstance(p_.comparators[0], ast.Tuple):
+                    ls = [_field_of(x, "self") or _field_of(x, other) for x in p_.left.elts]
+                    rs = [_field_of(x, other) or _field_of(x, "self") for x in p_.comparators[0].elts]
+                    if None in ls or ls != rs:
+                        return None
+                    out += ls
+                    continue
+                a_ = _field_of(p_.left, "self") or _field_of(p_.left, other)
+                b_ = _field_of(p_.comparators[0], other) or _field_of(p_.comparators[0], "self")
+                if a_ is None or a_ != b_ or norm(p_.left) == norm(p_.comparators[0]):
                     return None
-                out += ls
-                continue
-            a, b = _field_of(p.left, "self"), _field_of(p.comparators[0], other)
-            if a is None or a != b:
+                out.append(a_)
+            else:
                 return None
-            out.append(a)
-        else:
-            return None
-    return out
+        return out
+
+    true_sets = []
+    for lits, val, n_ in paths:
+        eq_true, eq_false, restricted = [], [], None
+        for k, tv in lits:
+            e = MM.pat(k)
+            fe = field_eqs(e)
+            if fe is not None and len(fe) >= 1:
+                (eq_true if tv else eq_false).extend(fe)
+                continue
+            m = MM.match(f"isinstance({other}, __t)", e)
+            if m is not None:
+                ts = m["__t"].elts if isinstance(m["__t"], ast.Tuple) else [m["__t"]]
+                if all(norm(t).rsplit(".", 1)[-1] in anc for t in ts):
+                    if tv:
+                        continue
+                    restricted = "foreign"  # not a plugin reference at all
+                    continue
+                if not tv:
+                    return None, f"equality is restricted by the type guard `{k}`: references of sibling PluginRef subclasses with equal fields compare unequal although they hash and order as equal"
+                continue
+            if "type(" in k or "__class__" in k:
+                return None, f"equality is restricted by the type test `{k}`: references of sibling PluginRef subclasses with equal fields compare unequal although they hash and order as equal"
+            return None, f"condition on something other than field equality: {k}"
+        is_false = (isinstance(val, ast.Constant) and val.value is False) or norm(val) == "NotImplemented"
+        if restricted == "foreign":
+            if not is_false:
+                return None, f"a non-reference operand gives {norm(val)}"
+            continue
+        if eq_false:
+            if not is_false:
+                return None, f"references that differ in {eq_false} give {norm(val)}"
+            continue
+        if isinstance(val, ast.Constant) and val.value is True:
+            true_sets.append(sorted(set(eq_true)))
+            continue
+        fe = field_eqs(val)
+        if fe is None:
+            return None, f"result is not a conjunction of field equalities: {norm(val)}"
+        true_sets.append(sorted(set(eq_true) | set(fe)))
+    if not true_sets:
+        return None, "no path answers True"
+    if any(t != true_sets[0] for t in true_sets):
+        return None, f"different paths compare different field sets: {true_sets}"
+    return true_sets[0], None
 
 
 def ge_lex_fields(ctx, fi) -> Tuple[Optional[List[str]], str]:
@@ -203,9 +264,12 @@ def r2_lexicographic(P, rep, ctx):
     ge = c.methods.get("__ge__")
     if not (eq and hs and ge):
         return
-    ef = eq_fields(eq)
+    ef, eq_problem = eq_fields(eq, ctx, P)
+    if ef is None and eq_problem and "restricted" in eq_problem:
+        rep.fail("C16.R2", eq.qual, "__eq__ type restriction", f"PluginRef.__eq__: {eq_problem}", eq.loc())
+        ef = list(FIELDS)
     if ef is None:
-        raise AnalysisError(f"C16.R2: __eq__ has an unrecognised shape: {norm(eq.node)[:200]}")
+        raise AnalysisError(f"C16.R2: __eq__ has an unrecognised shape ({eq_problem}): {norm(eq.node)[:200]}")
     rep.check(sorted(ef) == sorted(FIELDS), "C16.R2", eq.qual, f"__eq__ is the conjunction of == over {FIELDS}", eq.loc(), construct=f"__eq__ fields {ef}",
               message=f"__eq__ compares fields {ef}, the reference is identified by {FIELDS}")
     # hash over the same fields
